@@ -314,3 +314,13 @@ def sample_events(files, want, limit=200000):
                 if name not in got and pred(e):
                     got[name] = {"concrete": e["conc"], "observed": e["obs"], "abstract": e["req"]}
     return got
+
+
+def count_variants(files, needles):
+    """How many trace lines carry each concretisation variant (plain text count of '"attr":"variant"')."""
+    out = {n: 0 for n in needles}
+    for f in files:
+        data = open(f).read()
+        for n in needles:
+            out[n] += data.count('"%s":"%s"' % tuple(n.split(":", 1)))
+    return out
